@@ -73,6 +73,18 @@ Theorem C28_decode_is_reference : forall dst s, wf_bytes s -> decodeArgAppend ds
 Proof. intros dst s H. rewrite decodeArgAppend_spec. f_equal. rewrite <- dec_loop. now apply dec_spec_decode. Qed.
 Print Assumptions C28_decode_is_reference.
 
+(* CopyTo (beyond the property text, which names no copy): whatever dst held before — live entries or stale
+   slots — after a.CopyTo(dst) it holds exactly a's ordered (key, value, noValue) list, so by
+   C28_refines_multimap (which starts from any state) every later getter on the copy agrees too. *)
+Theorem C28_copy_exact : forall a dst, inv a -> abs (CopyTo a dst) = abs a /\ inv (CopyTo a dst).
+Proof. intros a dst H. split; [now apply CopyTo_exact|now apply inv_CopyTo]. Qed.
+Print Assumptions C28_copy_exact.
+
+(* PeekBytes (peekArgBytes, bytes.Equal) is Peek (peekArgStr, string compare) *)
+Theorem C28_peek_bytes_same : forall a k, PeekBytes a k = Peek a k.
+Proof. exact PeekBytes_Peek. Qed.
+Print Assumptions C28_peek_bytes_same.
+
 (* ---- non-vacuity ---- *)
 Definition ex_ops : list op :=
   [OAdd (s2b "a") (s2b "1"); OAdd (s2b "b") (s2b "2"); OAdd (s2b "a") (s2b "3"); OSet (s2b "a") (s2b "9")].
@@ -101,3 +113,10 @@ Example C28_ex_malformed :
   option_map abs (ParseBytes (run_ops emptyArgs ex_ops2) (s2b "%zz=%&a==b&&=&c&%4=%41+"))
   = Some [(s2b "%zz", s2b "%", false); (s2b "a", s2b "=b", false); (s2b "c", [], true); (s2b "%4", s2b "A ", false)].
 Proof. vm_compute. reflexivity. Qed.
+
+(* CopyTo into an Args with longer stale contents: nothing of the old contents survives *)
+Example C28_ex_copy :
+  abs (CopyTo (run_ops emptyArgs ex_ops) (run_ops emptyArgs ex_ops2)) = abs (run_ops emptyArgs ex_ops)
+  /\ length (spare (CopyTo (run_ops emptyArgs ex_ops) (run_ops emptyArgs ex_ops2))) = 3%nat
+  /\ abs (CopyTo (run_ops emptyArgs ex_ops2) (run_ops emptyArgs ex_ops)) = abs (run_ops emptyArgs ex_ops2).
+Proof. vm_compute. repeat split; reflexivity. Qed.
